@@ -391,6 +391,13 @@ def rule_r2(facts, rep, rid="C09-R2"):
 def run(facts, rep, tier):
     rule_r1(facts, rep)
     rule_r2(facts, rep)
+    rep.rule("C09-R4", "The action is offered (and resolved) for every provider: audited inventory of dropping adapters in handle_code_action / handle_code_action_resolve; the tree "
+                       "primitives used by the surgery contain none beyond the id tests checked in C09-R2.")
+    from .common import droppers_inventory
+    droppers_inventory(facts, rep, "C09-R4", ["Server::handle_code_action", "Server::handle_code_action_resolve"], {
+        ("Server::handle_code_action", "filter(|c0|P1.only_includes(&c0.action_kind()))"): "the client's `only` filter of the code-action request",
+        ("Server::handle_code_action_resolve", "find(|c0|{c0.action_kind().eq(&P1.clone().kind.unwrap())})"): "selects the provider of the action being resolved",
+    }, "code actions")
     # C09-R3 = C15-R1: every produced markdown is rendered relative to the directory of the note it is stored under
     rep.rule("C09-R3", "= C15-R1 restricted to the refactoring actions: each Change::Update{key: K, markdown: M} has M rendered with to_markdown(&K.parent(), ..)")
     sub = _Sub(rep, "C09-R3")
